@@ -219,6 +219,8 @@ def configs(tier: str) -> list[Config]:
                     for eoff in ((0, 2) if quick else (-3, 0, 2)):
                         if quick and (nbits == 5 or eoff != 0):
                             continue
+                        if nbits == 7 and eoff != 0:
+                            continue        # the widest formats: offset 0 only (keeps thorough near 25 min)
                         out.append(Config('EFloat', {'es': es, 'nbits': nbits, 'inf': inf, 'nan_kind': kind,
                                                      'eoffset': eoff}))
                         if eoff == 0 and nbits >= 3 and (not quick or (nbits == 4 and es == 2)):
@@ -509,7 +511,9 @@ class Check(BaseCheck):
                         nondyadic = bool(mag.denominator & (mag.denominator - 1))
                         for form, obj in fs:
                             self.check_one(r, cfg, ctx, spec, mode, ovf, 'round', None, form, obj, x, optext)
-                            if first or not quick:
+                            # positions, round_integer and exact=True are exercised on the first form of an
+                            # operand; the other forms (conversion paths) go through `round`
+                            if first:
                                 if spec.kind != 'real':
                                     # quick: a non-dyadic operand visits one rotating position only
                                     nsel = ns if not (quick and nondyadic) else \
